@@ -162,8 +162,11 @@ def c08(c):
     c.mc(toy_cfgs(["pair"], c.tier) + session_cfgs(c.tier))
     for b in ("ark", "min"):
         c.trace(b, "obs", scale(c.tier, 2, 30))
+        c.trace(b, "coordpat", scale(c.tier, 1, 6))
         c.trace(b, "coset", scale(c.tier, 40, 800))
         c.trace(b, "prog", scale(c.tier, 40, 800), 40)
+    c.exhaustive_parts.append("identity / equality predicates, hashes and encodings on representatives whose X or Y coordinate was set (rescaling "
+                              "hook) to 12 word patterns, as canonical value and as Montgomery form, for four base elements")
     return c.finish()
 
 
